@@ -4,16 +4,18 @@ import struct
 import numpy as np
 
 from .. import camx, lib
+from .. import landfmt as L
 from .. import slabfmt as S
 
 ID = 'C09'
 LEAN_MODULE = 'PncProofs.C09'
 LEAN_FILE = 'PncProofs/C09.lean'
 NAMESPACE = 'Props.C09'
-LEAN_CONE = ['PncModel.Words', 'PncModel.Camx.Uamiv', 'PncModel.Camx.Slab', 'PncProofs.WordsLemmas', 'PncProofs.UamivLemmas', 'PncProofs.C09']
-LEMMA_FILES = ['PncProofs/WordsLemmas.lean', 'PncProofs/UamivLemmas.lean']
+LEAN_CONE = ['PncModel.Words', 'PncModel.Camx.Landuse', 'PncModel.Camx.Uamiv', 'PncModel.Camx.Slab', 'PncProofs.WordsLemmas', 'PncProofs.LanduseLemmas', 'PncProofs.LanduseThms', 'PncProofs.UamivLemmas', 'PncProofs.C09']
+LEMMA_FILES = ['PncProofs/WordsLemmas.lean', 'PncProofs/UamivLemmas.lean', 'PncProofs/LanduseLemmas.lean', 'PncProofs/LanduseThms.lean']
 REQUIRED_THEOREMS = ['tiles', 'header_counts', 'refDecode_encode', 'slab_tiles', 'slab_record_content', 'cloud_rain_tiles',
-                     'cloud_rain_counts', 'wind_tiles', 'wind_step_shape', 'boundary_tiles', 'boundary_counts']
+                     'cloud_rain_counts', 'wind_tiles', 'wind_step_shape', 'boundary_tiles', 'boundary_counts',
+                     'landuse_tiles', 'landuse_counts', 'landuse_read']
 RULE = ('uamiv files (all four NAME variants, 1-3 species with names up to 10 characters, nx, ny 1-4, nz 1-3, '
         '1-3 steps, begin/end flags with and without ETFLAG, any finite float32 payload incl. denormals and -0): '
         'kind write = library writer bytes vs the Lean encoder and an independent python record walker; kind '
@@ -25,10 +27,12 @@ RULE = ('uamiv files (all four NAME variants, 1-3 species with names up to 10 ch
         'walker (markers tile the file, every record carries the time, date and cells that were written, in the layout\'s order), '
         'kind sread = reference-encoded bytes read by the Memmap reader vs the Lean reader model; cloud/rain files (3- and '
         '5-variable layouts, variables defined in layout or in other orders): kind cwrite = library writer bytes vs the Lean '
-        'encoder and the record walker, kind cread = reference-encoded bytes read by the Memmap reader vs the encoded content; '
+        'encoder and the record walker, kind cread = reference-encoded bytes read by the Memmap reader vs the encoded content; wind: kind wwrite = library writer '
+        'bytes vs the Lean encoder and the record walker, kind wread = reference-encoded files of 1-9 steps read by both readers vs the encoded content; landuse (new style with 11 or 26 categories and 0-2 of VAR1/LAI/TOPO, old style with 0-1 fields; rows, columns 1-4): '
+        'library writer bytes vs the Lean writer model and an independent record walker, reference-encoded bytes through the reader vs the Lean reader model and the encoded content, files cut short are rejected by both; '
         'non-trivial = at least two of nspec, nx*ny, nz, nt are > 1 and pairwise different strides')
 ASSUMPTIONS = ['numpy tofile/memmap and float32 <-> bits conversion are trusted (exercised incl. denormals, -0)',
-               'covered: the uamiv family, the five slab formats and cloud_rain (layout model, reader by oracle); wind (writer; readers in C13), lateral_boundary (layout model, reader and write-back by oracle); landuse and bpch (see C18) are not in this check']
+               'covered: the uamiv family, the five slab formats and cloud_rain (layout model, reader by oracle); wind (writer; reference-encoded files through both readers, as in C13), lateral_boundary (layout model, reader and write-back by oracle), landuse (writer and reader models, both styles); bpch: see C18']
 MIN_NONTRIVIAL = {'quick': 30, 'thorough': 300}
 
 
@@ -61,6 +65,15 @@ def gen(rng, tier):
         c['stag'] = rng.choice([0, 1])          # the writer always emits the three-word header
         c['kind'] = 'wwrite'
         c['vdtype'] = rng.choice(['f', 'd'])
+        out.append(c)
+    for i in range(n // 8):
+        c = S.gen_wind(rng)             # reference encoder -> both library readers (1-9 steps, both header variants)
+        c['kind'] = 'wread'
+        c['family'] = 'wind'
+        out.append(c)
+    for i in range(n // 6):
+        c = L.gen(rng)                  # landuse: writer and reader, both file styles, 0-2 optional fields
+        c['kind'] = 'land'
         out.append(c)
     return out
 
@@ -347,6 +360,11 @@ def _oracle_slab(case, res):
 
 
 def impl(case):
+    if case['kind'] == 'land':
+        return L.impl(case)
+    if case['kind'] == 'wread':
+        from . import c13
+        return c13.impl(case)
     if case['kind'] == 'bnd':
         return _impl_bnd(case)
     if case['kind'] == 'wwrite':
@@ -370,9 +388,11 @@ def impl(case):
 
 
 def to_line(case, res):
+    if case['kind'] == 'land':
+        return L.to_line(case, res)
     if case['kind'] == 'bnd':
         return S.bnd_line(case)
-    if case['kind'] == 'wwrite':
+    if case['kind'] in ('wwrite', 'wread'):
         return S.wind_line(case)
     if case['kind'] in ('cwrite', 'cread'):
         return _cr_line(case)
@@ -386,6 +406,10 @@ def to_line(case, res):
 
 
 def agree(case, out, res):
+    if case['kind'] == 'land':
+        return L.agree(case, out, res)
+    if case['kind'] == 'wread':
+        return None if out == 'ok ' + res['hex'] else 'the python reference encoder and the Lean wind encoder differ'
     if case['kind'] == 'cread' and _cr_ambiguous(case):
         return None
     if 'err' in res:
@@ -418,8 +442,13 @@ def _firstdiff(a, b):
 
 def oracle(case, res):
     """independent python record walker: markers tile the file, header counts match, content recovered"""
+    if case['kind'] == 'land':
+        return L.oracle_layout(case, res)
     if case['kind'] == 'bnd':
         return _oracle_bnd(case, res)
+    if case['kind'] == 'wread':
+        from . import c13
+        return c13.oracle(case, res)        # both readers present exactly the encoded steps, layers, U/V values and times
     if case['kind'] == 'wwrite':
         return _oracle_wind(case, res)
     if case['kind'] in ('cwrite', 'cread'):
@@ -497,7 +526,7 @@ KEY_YEND = 'C08/uamiv-write/end-date-year-rollover'
 
 
 def classify(case, failure, model_out):
-    if case['kind'] in ('swrite', 'sread', 'cwrite', 'cread', 'wwrite', 'bnd'):
+    if case['kind'] in ('swrite', 'sread', 'cwrite', 'cread', 'wwrite', 'wread', 'bnd', 'land'):
         return None
     if failure.startswith('end flag of a step ending at midnight 31 Dec'):
         return KEY_YEND
@@ -512,9 +541,11 @@ def _crosses_2000(case):
 
 
 def nontrivial(case, res):
+    if case['kind'] == 'land':
+        return L.nontrivial(case, res)
     if case['kind'] == 'bnd':
         return len(case['tflag']) >= 2 or len(case['species']) >= 2
-    if case['kind'] in ('swrite', 'sread', 'cwrite', 'cread', 'wwrite'):
+    if case['kind'] in ('swrite', 'sread', 'cwrite', 'cread', 'wwrite', 'wread'):
         return len({case['nz'], case['nx'] * case['ny'], len(case['flags'])} - {1}) >= 2
     dims = [len(case['species']), case['nx'] * case['ny'], case['nz'], len(case['tflag'])]
     return sum(1 for d in dims if d > 1) >= 2
@@ -525,7 +556,10 @@ def distribution(recs):
     for r in recs:
         c = r['case']
         d[c['kind']] = d.get(c['kind'], 0) + 1
-        if 'name' in c:
+        if c['kind'] == 'land':
+            k = 'land_%s_%dopt' % ('new' if c['new'] else 'old', len(c['opts']))
+            d[k] = d.get(k, 0) + 1
+        elif 'name' in c:
             d['name_' + c['name']] = d.get('name_' + c['name'], 0) + 1
         else:
             d['fmt_' + c['fmt']] = d.get('fmt_' + c['fmt'], 0) + 1
